@@ -140,6 +140,8 @@ def replay(ctx, res, failure):
     harness function natively on small-value-biased pseudo-random draws until it panics; prints FOUND {json}"""
     from vp.core import native_search
     from vp import kani_run
+    if not isinstance(failure, dict) or "job" not in failure or "harness" not in failure:
+        return None   # fallback / thorough call without a failed harness: nothing to search for
     job = failure["job"]
     names = [h.name for h in job.harnesses]
     table = "pub fn vp_harness(n: &str) -> Option<fn()> {\n    match n {\n" + "".join(
